@@ -49,6 +49,8 @@ def mk_peer(host, state, ip_addr=None):
     p = Peer(host, {'hosts': {host: {'tcp_port': 50001, 'ssl_port': 50002}}}, 'test',
              ip_addr=ip_addr if ip_addr is not None else (None if _is_name(host) else host))
     p.last_good = STATE_TIMES[state]
+    # whatever the outcome of the last verification, the last ATTEMPT is recent (retries go on)
+    p.last_try = NOW - 5
     if state == 'bad':
         p.mark_bad()
     return p
@@ -116,6 +118,7 @@ def make_pm(own_state):
     pm = peersmod.PeerManager(env, None)
     for me in pm.myselves:
         me.last_good = STATE_TIMES[own_state]
+        me.last_try = NOW - 5
     return pm, peersmod
 
 
